@@ -157,7 +157,7 @@ P = D.DesignProperty(
     "C25", judge,
     rule=("case = generated Nest(outer, inner) over CrossBlocks with disjoint crossings (depth 2 in a third of the cases), inner constraints of all "
           "kinds; non-trivial = at least one sequence judged, outer crossing size >= 2 and inner length >= 2; distinct = distinct spec JSON"),
-    cfg_quick=CFG, n_quick=100, n_thorough=600, case_limit=(20, 120),
+    cfg_quick=CFG, n_quick=100, n_thorough=600, case_limit=(12, 120),
     limits={"max_T": {"quick": 8, "thorough": 12}, "max_models": {"quick": 600, "thorough": 6000}, "max_seqs": {"quick": 600, "thorough": 6000},
             "node_cap": {"quick": 200000, "thorough": 2000000}},
     assumptions=["no preamble trials (within-trial derived factors only); outer constraints other than Exclude are ambiguous in the documentation and excluded",
